@@ -11,6 +11,7 @@ inv = lambda site, kb, t=100: {"k": "invoke", "site": site, "kb": kb, "ka": kb, 
 W[("C14", "cache_key_encoding")] = {"op": "cache", "in": {"ops": [inv(0, [["a", "b"]]), inv(0, [["a\nb"]])]}}
 W[("C14", "cache_stat_error_nil_deref")] = {"op": "cache", "in": {"ops": [inv(0, [["a"]]), {"k": "corrupt", "site": 0, "kb": [["a"]], "ka": None, "timeout": 0, "msg": False, "dt": 0, "kind": "loop"}, inv(0, [["a"]])]}}
 W[("C15", "raw_cache_partial_entry")] = {"op": "crashwrite", "in": {"flavour": "raw", "n": 3, "previous": "none", "same": False}}
+W[("C16", "files_unclean_dir_part")] = {"op": "files", "in": {"tree": [{"path": "a", "kind": "dir", "target": ""}, {"path": "a/x", "kind": "file", "target": ""}], "ctxDir": "", "typed": "a//", "dirOnly": False, "suffixes": None, "chdir": None}}
 lines = [json.dumps({"op": w["op"], "id": "%s#%s" % k, "in": w["in"]}) for k, w in W.items()]
 h = subprocess.run(['/verif/bin/harness', 'run'], input="\n".join(lines).encode(), stdout=subprocess.PIPE)
 d = subprocess.run(['/verif/bin/driver'], input=h.stdout, stdout=subprocess.PIPE)
